@@ -230,6 +230,44 @@ def inv_stage(ctx, cov, outs=None, procs=8, cases=None):
     ctx.log("standing invariants: %d findings for %s" % (n, ctx.prop))
 
 
+def genuine_stage(ctx, cov, procs=8, cases=None):
+    """C08 without a race: in a single-threaded run nothing is "being rewritten" while a read runs, so a value-reading
+    call must never answer StaleExtent, and what it returns must be the key's own bytes (the reference map's value).
+    Every difference of that kind on the call-by-call kv runs (all formats, block-exact record sizes, retirements next to
+    live records) is a failing input of C08: a retirement / reuse that reaches into a neighbour's extent shows here."""
+    ok, out = cargo_build(ctx, ["kv"])
+    if not ok:
+        return
+    outs = run_kv(ctx, procs, cases or (20 if ctx.tier == "quick" else 150))
+    n = reads = 0
+    READS = ("kv get", "kv range", "kv cas", "kv inc", "kv patch")
+    for o in outs:
+        if "crash" in o:
+            continue
+        for case in split_cases(o["ops"], o["impl"], o["model"]):
+            for i, (op, im, mo) in enumerate(zip(case["ops"], case["impl"], case["model"])):
+                if not op.startswith(READS):
+                    continue
+                reads += 1
+                if im == mo:
+                    continue
+                stale = "StaleExtent" in im and "StaleExtent" not in mo
+                other = im.startswith("ok") and mo.startswith("ok") and im.split(" | ")[0] != mo.split(" | ")[0] and op.startswith(("kv get", "kv range"))
+                if not (stale or other):
+                    continue
+                n += 1
+                if n <= 2:
+                    small, r = shrink_case(ctx, case, i)
+                    txt = "".join(l + "\n" for l in (r[0] if r else small))
+                    if r:
+                        txt += "# implementation answers:\n" + "".join("# " + l + "\n" for l in r[1]) + "# reference (Lean Kv.Spec) answers:\n" + "".join("# " + l + "\n" for l in r[2])
+                    violation(ctx, "a read with no concurrent writer " + ("answers StaleExtent (nothing is being rewritten: the key's extent was overwritten or handed to someone else)" if stale else "returns bytes that are not the key's current value") + ": " + im[:80], txt, tag="genuine")
+                break
+    cov["sequential_reads_judged"] = reads
+    cov["sequential_reads_not_genuine"] = n
+    ctx.log("sequential genuine-read stage: %d value-reading calls, %d not genuine" % (reads, n))
+
+
 def tier_stage(ctx, outs, cov):
     """the tier automaton Feox.Kv.Tiers as a monitor: after every call the harness reports, per key, where
     the current generation's bytes are (resident / device / cache entry of that generation); consecutive
